@@ -37,7 +37,10 @@ def bump_at(X, name, ch):
 
 
 def chan_modset(V, x):
-    return {gk(n) for n in GHOST_INTS} | {gk_arr('sent_on'), gk_arr('closed_on'), gk_arr('recv_on')}
+    op = x.get('op')
+    if op == 'Go':
+        return {gk('go_count')}
+    return {gk(n) for n in ('ch_sent', 'ch_recv', 'ch_closed')} | {gk_arr('sent_on'), gk_arr('closed_on'), gk_arr('recv_on')}
 
 
 def recv(X, ins):
@@ -48,6 +51,21 @@ def recv(X, ins):
     el = e['elem']
     msg = w.fresh('msg', w.sort(el))
     X.assume_typed(msg, el)
+    c = X.contract if X.top else None
+    if c is not None and c.get('recvs'):
+        from .speceval import SpecEval, SV
+        from .spec import SpecError
+        names = X.resolve_names(X.block, upto_idx=X.cur_idx)
+        env = X.spec_env(names)
+        env['msg'] = SV(msg, el)
+        for (chname, lab, ast, txt) in c['recvs']:
+            ev = SpecEval(X.V, X.pkg, env, X.heap, old=X.top_entry_heap())
+            try:
+                tgt = ev.ev(('id', chname)).t
+                X.hyp(z3.Implies(ch == tgt, ev.boolean(ast)))
+                X.V.notes.append('channel message invariant assumed in %s: %s' % (X.V.shown, txt))
+            except SpecError as ex:
+                raise OutOfSubset('recv clause in %s: %s' % (X.fnkey, ex))
     if ins.get('commaok'):
         ok = w.fresh('recvok', B)
         X.heap.set(gk('ch_recv'), X.heap.get(gk('ch_recv')) + z3.If(ok, 1, 0))
@@ -68,8 +86,22 @@ def do_send(X, ins):
     X.oblige('sendclosed', X.heap.get(gk_arr('closed_on'))[ch] == 0, ins.get('pos', ''), text='send on a closed channel panics')
     bump(X, 'ch_sent')
     bump_at(X, 'sent_on', ch)
-    # the last message sent is visible to contracts as ghost(last_sent_<field>) through the hook below
-    X.last_sent = v
+    c = X.contract if X.top else None
+    if c is not None and c.get('sends'):
+        from .speceval import SpecEval, SV
+        from .spec import SpecError
+        names = X.resolve_names(X.block, upto_idx=X.cur_idx)
+        env = X.spec_env(names)
+        uk, e = X.w.prog.under(ins['chan']['type'])
+        if z3.is_expr(v):
+            env['msg'] = SV(v, e['elem'])
+        for (chname, lab, ast, txt) in c['sends']:
+            ev = SpecEval(X.V, X.pkg, env, X.heap, old=X.top_entry_heap())
+            try:
+                tgt = ev.ev(('id', chname)).t
+                X.oblige('send', z3.Implies(ch == tgt, ev.boolean(ast)), ins.get('pos', ''), label='%s.%s' % (chname, lab or '0'), text=txt)
+            except SpecError as ex:
+                raise OutOfSubset('send clause in %s: %s' % (X.fnkey, ex))
 
 
 def do_close(X, ins):
